@@ -76,7 +76,53 @@ type hres struct {
 	label string // site for finding keys
 }
 
-var hopName = []string{"decode", "encode", "String", "split", "ParseLongSmsContent", "Utf8ToUcs2Pooled", "ExtractDeliveryReceipt", "Build", "helper-packet", "status-report"}
+var hopName = []string{"decode", "encode", "String", "split", "ParseLongSmsContent", "Utf8ToUcs2Pooled", "ExtractDeliveryReceipt", "Build", "helper-packet", "status-report", "refused-encode-then-encode", "String-foreign-id", "decode-into-kept-value"}
+
+// breakField makes a value the encoder must refuse (or at least treat unusually): the k-th text field outside the
+// header, or the first element of the k-th text list, is replaced by long.
+func breakField(pdu any, k int, long string) string {
+	type slot struct {
+		name string
+		v    reflect.Value
+	}
+	var slots []slot
+	rv := reflect.ValueOf(pdu).Elem()
+	for i := 0; i < rv.NumField(); i++ {
+		f := rv.Field(i)
+		n := rv.Type().Field(i).Name
+		if n == "Header" || !f.CanSet() {
+			continue
+		}
+		switch {
+		case f.Kind() == reflect.String:
+			slots = append(slots, slot{n, f})
+		case f.Kind() == reflect.Slice && f.Type().Elem().Kind() == reflect.String && f.Len() > 0:
+			slots = append(slots, slot{n + "[0]", f.Index(0)})
+		}
+	}
+	if len(slots) == 0 {
+		return ""
+	}
+	sl := slots[k%len(slots)]
+	sl.v.SetString(long)
+	return sl.name
+}
+
+// setCommandID overwrites the command id in a PDU value's header.
+func setCommandID(pdu any, id uint32) {
+	h := reflect.ValueOf(pdu).Elem().FieldByName("Header")
+	if !h.IsValid() {
+		return
+	}
+	for _, n := range []string{"CommandID", "ID"} {
+		if f := h.FieldByName(n); f.IsValid() && f.CanSet() {
+			f.SetUint(uint64(id))
+			return
+		}
+	}
+}
+
+var foreignIDs = []uint32{0, 3, 9, 10, 11, 0x10, 0x11, 0x15, 0x21, 0x102, 0x103, 0x1000, 0x80000000, 0x80000009, 0x80000015, 0x7fffffff, 0xffffffff}
 
 // scribbleBytes overwrites every []byte reachable from a decoded PDU (message
 // bodies, optional-parameter values) in place.
@@ -249,12 +295,27 @@ func genHistory(c *core.Chooser, prop string, tid int, maxOps int) []hop {
 	ops := make([]hop, 0, n)
 	for i := 0; i < n; i++ {
 		var o hop
-		weights := []int{5, 4, 2, 2, 1, 2, 1, 0, 2, 1}
+		weights := []int{5, 4, 2, 2, 1, 2, 1, 0, 2, 1, 1, 1, 2}
 		if prop == "C13" {
 			weights[7] = 2
 		}
 		o.kind = c.Pick(weights...)
 		switch o.kind {
+		case 10, 11, 12:
+			pd := proto.PDUs[c.Intn(len(proto.PDUs))]
+			o.pd, o.msg = pd, spec.Gen(c, pd, spec.GenOpt{MaxDests: 3, MaxBody32: 60, BinNoNul: true, NoTail: o.kind == 11})
+			switch o.kind {
+			case 10:
+				o.coding = c.Intn(64)
+				o.text = []string{strings.Repeat("x", 300), "zz-not-hex-zz", strings.Repeat("7", 21), strings.Repeat("\u00e9", 40)}[c.Intn(4)]
+			case 11:
+				o.coding = int(foreignIDs[c.Intn(len(foreignIDs))])
+				if c.Prob(1, 3) {
+					o.coding = int(uint32(c.Uint64()))
+				}
+			case 12:
+				o.frame, _ = spec.Build(o.msg)
+			}
 		case 0, 1, 2:
 			pd := proto.PDUs[c.Intn(len(proto.PDUs))]
 			opt := spec.GenOpt{MaxDests: 2, MaxBody32: 120, BinNoNul: true}
@@ -314,6 +375,7 @@ type taskState struct {
 	link  *byteLink
 	cd    codec.Codec
 	done  bool
+	kept  map[string]protocol.PDU // values the task decodes into again and again
 }
 
 // execOp performs one operation and returns the live result.
@@ -455,6 +517,58 @@ func execOp(r *core.Run, t *taskState, o hop) (live any, label string, panicked 
 				b2[i] = 0xC3
 			}
 			live = withBirth{live: b, birth: pre}
+		})
+		return live, label, p
+	case 10:
+		label = o.pd.Site()
+		p := r.Call(label+".IEncode", func() {
+			bad := ToGo(o.msg)
+			what := breakField(bad, o.coding, o.text)
+			first := "accepted"
+			if _, err := bad.IEncode(); err != nil {
+				first = "refused"
+			}
+			// the encode that FOLLOWS a refused one is the interesting one
+			b, err := ToGo(o.msg).IEncode()
+			if err != nil {
+				live = what + " " + first + "; then encode error"
+				return
+			}
+			live = withBirth{live: b, birth: snapshot(b)}
+		})
+		return live, label, p
+	case 11:
+		label = o.pd.Site()
+		p := r.Call(label+".String", func() {
+			pdu := ToGo(o.msg)
+			setCommandID(pdu, uint32(o.coding))
+			live = pdu.String()
+		})
+		return live, label, p
+	case 12:
+		label = o.pd.Site()
+		p := r.Call(label+".IDecode", func() {
+			if t.kept == nil {
+				t.kept = map[string]protocol.PDU{}
+			}
+			recv := t.kept[label]
+			if recv == nil {
+				recv = ctor[label]()
+				t.kept[label] = recv
+			}
+			view := append([]byte(nil), o.frame...)
+			if err := recv.IDecode(view); err != nil {
+				live = "decode error"
+			} else {
+				// what the caller keeps: the fields as they are now (slices and maps by reference, as an
+				// application that hands the destination list on would hold them)
+				cp := reflect.New(reflect.TypeOf(recv).Elem())
+				cp.Elem().Set(reflect.ValueOf(recv).Elem())
+				live = withBirth{live: cp.Interface(), birth: snapshot(cp.Interface())}
+			}
+			for i := range view {
+				view[i] = 0x5A
+			}
 		})
 		return live, label, p
 	case 8:
